@@ -46,8 +46,10 @@ def mk(line, st, line_no=1):
                         pass
         else:
             tm.reset()
-    tm._active_doc_string_separator = st.active
-    tm._indent_to_remove = st.indent_to_remove
+    if not st.history:
+        # a state given directly (no history): put the matcher into it; with a history the matcher is left exactly as the history left it
+        tm._active_doc_string_separator = st.active
+        tm._indent_to_remove = st.indent_to_remove
     tok = Token(GherkinLine(line, line_no), {"line": line_no})
     return tm, tok
 
